@@ -1,5 +1,5 @@
 """C17 - materialization boundaries are transparent."""
-from .. import prun, pcut
+from .. import prun, pcut, kcollect
 from ..common import seed
 
 ASSUMPTIONS = [
@@ -7,17 +7,23 @@ ASSUMPTIONS = [
     "dict of symbolically computed partition values of the optimised head",
     "to_delayed()/from_delayed(meta, divisions) and to_legacy_dataframe()/from_legacy_dataframe() run for real (legacy graph optimisation only restructures tasks); the "
     "resulting graphs are interpreted symbolically",
+    "K: the names of graph-backed / delayed sources identify every operand (divisions included): two imports that differ anywhere get different names (singleton table, task keys)",
     "oracle: the uncut query; final result, schema (labels/kind) and divisions compared; symdf leaf models; <=5 rows, <=3 partitions; distributed outside",
 ]
 
 
 def run(tier, only=None):
+    from ..common import match_only
+
     from ..pfam import summarise
 
     cfgs = pcut.configs(tier)
     if only:
-        cfgs = [c for c in cfgs if only in pcut._name(c) or only in c["htag"]]
+        cfgs = [c for c in cfgs if match_only(only, pcut._name(c), c["htag"])]
     results = prun.run_programs(cfgs, pcut.check)
     info = summarise(cfgs, results, 0)
+    krs, kinfo = kcollect.run("C17", tier, only)
+    results = krs + results
+    info.update(kinfo)
     info["rule"] = "one obligation per (head node kind, continuation, cut kind, layout): z3 decides cut == uncut for all table contents; schema and divisions compared concretely"
     return "translation_validation", results, info, ASSUMPTIONS
